@@ -98,7 +98,7 @@ fn base_pool_srcs() -> Vec<String> {
     for x in [
         "0", "1", "(0-1)", "2", "3", "(7^1)", "(2^70+5-2^70)", "2^53-1", "2^53", "2^53+1", "2^53+2", "2^63-1", "2^63",
         "2^63+1", "(0-2^63)", "(0-2^63-1)", "2^64", "2^64+1", "2^100", "2^100+1", "10^30", "2^1024", "(0-2^1024)",
-        "2^1023", "(2^1024-2^970)", "(2^1024-2^970+1)",
+        "2^1023", "(2^1024-2^970)", "(2^1024-2^970+1)", "(2^63-1024)", "(0-2^63-2048)", "2^64-1", "2^64-2048", "2^31", "2^32",
     ] {
         v.push(s(x));
     }
@@ -107,13 +107,14 @@ fn base_pool_srcs() -> Vec<String> {
         "0.0", "(-0.0)", "1.0", "(-1.0)", "0.5", "1.5", "2.5", "0.1", "0.3333333333333333", "9007199254740992.0",
         "9007199254740994.0", "9223372036854775808.0", "(-9223372036854775808.0)", "18446744073709551616.0",
         "float(\"1267650600228229401496703205376\")", "1e30", "1.7976931348623157e308", "5e-324",
-        "float(\"inf\")", "float(\"-inf\")", "(0.0/0.0)", "7.0", "5.0",
+        "float(\"inf\")", "float(\"-inf\")", "(0.0/0.0)", "7.0", "5.0", "9223372036854774784.0", "(0-9223372036854777856.0)",
+        "18446744073709549568.0", "2147483648.0", "4294967296.0",
     ] {
         v.push(s(x));
     }
     // fractions: integral-valued, exactly a float's value, one "ulp of the fraction" away from it
     for x in [
-        "(1/2)", "(1/3)", "(2/2)", "(3/2)", "(5/2)", "((0-1)/2)", "(1/10)", "(0/5)",
+        "(2^63/1)", "((0-2^63)/1)", "((2^63-1)/1)", "(1/2)", "(1/3)", "(2/2)", "(3/2)", "(5/2)", "((0-1)/2)", "(1/10)", "(0/5)",
         "(3602879701896397/36028797018963968)",     // the exact value of 0.1
         "(6004799503160661/18014398509481984)",     // the exact value of 0.3333333333333333
         "(6004799503160661000001/18014398509481984000000)",
@@ -123,7 +124,7 @@ fn base_pool_srcs() -> Vec<String> {
         v.push(s(x));
     }
     // complex
-    for x in ["(1+0i)", "(1+1i)", "(1+2i)", "1i", "(2.5+0i)", "(0.5+0i)", "((0.0/0.0)+1i)", "(1+(0.0/0.0)*1i)", "(2+1i)", "(1-1i)", "(7+0i)"] {
+    for x in ["(1+0i)", "(1+1i)", "(1+2i)", "1i", "(2.5+0i)", "(0.5+0i)", "((0.0/0.0)+1i)", "(1+(0.0/0.0)*1i)", "(2+1i)", "(1-1i)", "(7+0i)", "(9223372036854775808.0+0i)", "(0-9223372036854775808.0+0i)"] {
         v.push(s(x));
     }
     // other kinds
@@ -359,7 +360,7 @@ fn main() {
     let mut srcs = base_pool_srcs();
     let rn = random_number_srcs(&mut rng, n_rand_nums);
     let numeric_srcs: Vec<String> = {
-        let mut x: Vec<String> = srcs.iter().take(78).cloned().collect();
+        let mut x: Vec<String> = srcs.iter().take_while(|s| s.as_str() != "null").cloned().collect();
         x.extend(rn.iter().cloned());
         x
     };
